@@ -114,7 +114,8 @@ class SCF(BaseObject):
     def atoms(self, value):
         # Build the Atoms object if necessary and make a copy
         # This way the Atoms objects inside and outside the class are independent but both are build
-        if not value.is_built:
+        # Changing the k-points or occupations directly does not reset the build status of the Atoms object
+        if not (value.is_built and value.kpts.is_built and value.occ.is_filled):
             self._atoms = copy.deepcopy(value.build())
         else:
             self._atoms = copy.deepcopy(value)
